@@ -140,6 +140,15 @@ CLAIMED = {
             "pass Check, give the house-style AST (comments and notes aside, rule maps unordered) and the TLC verdict on a stride of documents; every "
             "selected document is re-spelled 18 ways (whitespace, property order, \\uXXXX and \\/ escapes in values and keys) and must keep its verdict.",
             "Only rewrites the statement lists, at positions the language admits; quick tier: strength-1 cover plus line-end pairs, thorough: strength 2.", "3/C13"),
+    "C07": ("TLC trace validation (TraceApi / Api!Problem): every public entry point is called with arbitrary byte strings under recover and a "
+            "watchdog, every call is logged with its outcome class, error code, position, the length of the source the error names and whether "
+            "Error() renders; TLC accepts only ok or a library error positioned inside its source",
+            "26 entry points (Schema Len/Check/GetAST/UsedUserTypes/Example/Validate, the text as added user type, as enum rule incl. AddRule, as "
+            "regex type incl. AddType, as document under three schemas, kit.ConvertError) on prefixes of the repository's testdata files, cut-off "
+            "witnesses and byte mutations of generated schemas; any panic, non-library error value, hang, position outside the named source or "
+            "panicking Error() is reported.",
+            "The static clause (message templates and argument lists agree at every construction site, every code has a template) is a fact "
+            "about source text and is covered only dynamically, for the error values the executions produce.", "3/C07"),
 }
 
 PENDING_REASON = "check under construction in this session - not claimed yet (no technique switch intended; see DESIGN.md section 3)"
